@@ -8,6 +8,9 @@ Translated:
   * models.py: keyword parameters of `Docstring.__init__` and `Decorator.__init__` with required-ness;
   * encoders.py: the keys of `_loader_map` (must be exactly the five Kind members) and the dispatch order of
     `json_decoder` (`isinstance(obj_dict.get("cls"), str)` before `isinstance(obj_dict.get("kind"), str)`).
+Second file coq/Gen/C08_text_tables.v (translate_text_tables): CPython's JSON string escapes and white space, str.isspace
+on Latin-1, the keyword arguments of json.dumps in SerializationMixin.as_json and of the serialisation calls of cli.dump,
+and the full-only keys of Object / Alias / Docstring.as_dict.
 """
 from __future__ import annotations
 
@@ -144,7 +147,102 @@ def _decoder_shape(tree: ast.Module, kinds) -> None:
         raise TranslatorError(f"json_decoder dispatches on {tests}, the model assumes ['cls', 'kind'] (both required to be str)")
 
 
+def _call_keywords(fn: ast.FunctionDef, callee: str) -> list[list[str]]:
+    """keyword names (None = **kwargs) of every call `json.dumps(...)` / `<x>.as_json(...)` in a function body."""
+    out = []
+    for n in ast.walk(fn):
+        if isinstance(n, ast.Call) and isinstance(n.func, ast.Attribute) and n.func.attr == callee:
+            out.append([k.arg if k.arg is not None else "**" for k in n.keywords])
+    return out
+
+
+def _method(tree: ast.Module, cls_name: str, name: str) -> ast.FunctionDef:
+    cls = [n for n in tree.body if isinstance(n, ast.ClassDef) and n.name == cls_name]
+    if len(cls) != 1:
+        raise TranslatorError(f"class {cls_name} not found")
+    fn = [n for n in cls[0].body if isinstance(n, ast.FunctionDef) and n.name == name]
+    if len(fn) != 1:
+        raise TranslatorError(f"{cls_name}.{name} not found")
+    return fn[0]
+
+
+def _full_keys(fn: ast.FunctionDef, what: str) -> list[str]:
+    """the keys added under `if full:` in an as_dict method, in order: either `base.update({...})` or `base[k] = v`."""
+    ifs = [s for s in fn.body if isinstance(s, ast.If) and isinstance(s.test, ast.Name) and s.test.id == "full"]
+    if len(ifs) != 1 or ifs[0].orelse:
+        raise TranslatorError(f"{what}: expected exactly one `if full:` without else")
+    keys = []
+    for s in ifs[0].body:
+        if isinstance(s, ast.Expr) and isinstance(s.value, ast.Call) and isinstance(s.value.func, ast.Attribute) and s.value.func.attr == "update" \
+                and len(s.value.args) == 1 and isinstance(s.value.args[0], ast.Dict):
+            for k, v in zip(s.value.args[0].keys, s.value.args[0].values):
+                if not (isinstance(k, ast.Constant) and isinstance(k.value, str) and isinstance(v, ast.Attribute) and isinstance(v.value, ast.Name)
+                        and v.value.id == "self" and v.attr == k.value):
+                    raise TranslatorError(f"{what}: full-only entry outside the whitelist: {ast.unparse(k)}: {ast.unparse(v)}")
+                keys.append(k.value)
+        elif isinstance(s, ast.Assign) and len(s.targets) == 1 and isinstance(s.targets[0], ast.Subscript) and isinstance(s.targets[0].slice, ast.Constant) \
+                and isinstance(s.value, ast.Attribute) and isinstance(s.value.value, ast.Name) and s.value.value.id == "self" and s.value.attr == s.targets[0].slice.value:
+            keys.append(s.targets[0].slice.value)
+        else:
+            raise TranslatorError(f"{what}: statement under `if full:` outside the whitelist: {ast.unparse(s)[:80]}")
+    return keys
+
+
+def translate_text_tables() -> Path:
+    """coq/Gen/C08_text_tables.v: what the text-level and full-mode models take from CPython (json, str) and from
+    mixins.py / models.py / cli.py, regenerated on every run; the proofs re-establish by computation that the model's
+    own definitions agree with these tables."""
+    import json.decoder
+    import json.encoder
+    src = REPO / "src/_griffe"
+    esc = []
+    for n in range(256):
+        text = json.encoder.py_encode_basestring_ascii(chr(n))
+        if not (text.startswith('"') and text.endswith('"')):
+            raise TranslatorError("json.encoder.py_encode_basestring_ascii no longer quotes")
+        esc.append([ord(c) for c in text[1:-1]])
+        if any(c > 126 or c < 32 for c in esc[-1]):
+            raise TranslatorError("escaped text is not printable ASCII")
+    ws = sorted(ord(c) for c in json.decoder.WHITESPACE_STR)
+    spaces = [n for n in range(256) if chr(n).isspace()]
+    mixins = ast.parse((src / "mixins.py").read_text())
+    as_json = _method(mixins, "SerializationMixin", "as_json")
+    calls = _call_keywords(as_json, "dumps")
+    if calls != [["cls", "full", "**"]]:
+        raise TranslatorError(f"SerializationMixin.as_json: json.dumps keywords {calls}, the text-level model assumes cls, full, **kwargs (default separators, ensure_ascii)")
+    models = ast.parse((src / "models.py").read_text())
+    obj_keys = _full_keys(_method(models, "Object", "as_dict"), "Object.as_dict")
+    alias_keys = _full_keys(_method(models, "Alias", "as_dict"), "Alias.as_dict")
+    doc_keys = _full_keys(_method(models, "Docstring", "as_dict"), "Docstring.as_dict")
+    cli = ast.parse((src / "cli.py").read_text())
+    dump = [n for n in cli.body if isinstance(n, ast.FunctionDef) and n.name == "dump"]
+    if len(dump) != 1:
+        raise TranslatorError("cli.dump not found")
+    cli_calls = sorted(sorted(k) for k in _call_keywords(dump[0], "dumps") + _call_keywords(dump[0], "as_json"))
+    if cli_calls != [["cls", "full", "indent", "sort_keys"], ["full", "indent", "sort_keys"]]:
+        raise TranslatorError(f"cli.dump serialises with keywords {cli_calls}: expected indent, full, sort_keys (+cls)")
+    lst = lambda l: "[" + "; ".join(str(x) for x in l) + "]"
+    out = ["(* GENERATED by harness/translate/c08_tables.py (translate_text_tables) from CPython's json / str and from",
+           "   /repo/src/_griffe/{mixins,models,cli}.py -- do not edit *)",
+           "From Coq Require Import List String.", "Import ListNotations.", "Open Scope string_scope.", "",
+           "(* json.encoder.py_encode_basestring_ascii(chr(n)) without the quotes, as character codes, for n = 0..255 *)",
+           "Definition json_escape_table : list (list nat) :=", "  [" + ";\n   ".join(lst(e) for e in esc) + "].", "",
+           "(* json.decoder.WHITESPACE_STR *)", f"Definition json_whitespace : list nat := {lst(ws)}.", "",
+           "(* the code points below 256 for which str.isspace() holds (str.rstrip / lstrip without argument) *)",
+           f"Definition latin1_space : list nat := {lst(spaces)}.", "",
+           "(* keys that as_dict adds under `if full:`, in order (models.py) *)",
+           "Definition full_object_keys : list string := [" + "; ".join(_coq_str(k) for k in obj_keys) + "].",
+           "Definition full_alias_keys : list string := [" + "; ".join(_coq_str(k) for k in alias_keys) + "].",
+           "Definition full_docstring_keys : list string := [" + "; ".join(_coq_str(k) for k in doc_keys) + "].", ""]
+    p = VERIF / "coq/Gen/C08_text_tables.v"
+    text = "\n".join(out)
+    if not p.exists() or p.read_text() != text:
+        p.write_text(text)
+    return p
+
+
 def translate(ctx=None) -> Path:
+    translate_text_tables()
     src = REPO / "src/_griffe"
     enums = ast.parse((src / "enumerations.py").read_text())
     kinds = _enum_values(enums, "Kind")
